@@ -106,8 +106,14 @@ def behaviours(r, keys):
     import os
     from . import tlaparse
     base = [k for k in keys if k in replay.BASE_KEYS and k != "shadowed"]
-    for path in sorted(glob.glob(os.path.join(r.workdir, "sim", "b_*"))):
-        states = tlaparse.parse_behaviour(open(path).read())
+    paths = sorted(glob.glob(os.path.join(r.workdir, "sim", "b_*")))
+    if getattr(r, "sim_aborted", False) and paths:
+        paths = sorted(paths, key=os.path.getmtime)[:-1]      # the behaviour being written when the simulator stopped
+    for path in paths:
+        text = open(path).read()
+        if not text.strip():
+            continue
+        states = tlaparse.parse_behaviour(text)
         out = []
         for st in states[1:]:
             post = {k: st[k] for k in base}
@@ -181,6 +187,10 @@ def stage_sim(ctx, name, *, num, depth, bases=(0,), consts=None, invariants=None
         if r.errors:
             raise MachineryFailure("simulate %s: %s" % (name, r.errors[0][:1500]))
         behs = list(behaviours(r, consts["EmitKeys"]))
+        if getattr(r, "sim_aborted", False):
+            ctx.notes.setdefault("simulations_cut_short", {})[name] = "%d of %d behaviours (TLC's simulator stopped, see harness/tlc.py)" % (len(behs), num)
+            if not behs:
+                raise MachineryFailure("simulate %s: the simulator stopped before the first behaviour was complete" % name)
         os.makedirs(core.CACHE, exist_ok=True)
         tmp = "%s.%d.tmp" % (key, os.getpid())
         with gzip.open(tmp, "wt") as fh:
